@@ -79,8 +79,16 @@ Definition implicit_title_of (node : dnode) : option str :=
 
 Definition explicit_t := list (str * (str * option str)).
 
+(* the nodes that never become link targets: footnotes, external hyperlink *targets* (a target
+   node with a refuri) and object descriptions.  [legacy_refuri] = the code before the fix:
+   commit, which skipped every node with a refuri, also a link carrying an id attribute *)
+Definition skipped (legacy_refuri : bool) (n : dnode) : bool :=
+  str_eqb (n_tag n) s_footnote
+  || (n_has_refuri n && (legacy_refuri || kind_eqb (n_kind n) KTarget))
+  || startswith (n_tag n) s_desc_.
+
 (* one iteration of  for name, is_explicit in self.document.nametypes.items()  *)
-Definition explicit_step (rg : registries) (acc : explicit_t) (name : str) (is_explicit : bool)
+Definition explicit_step (legacy_refuri : bool) (rg : registries) (acc : explicit_t) (name : str) (is_explicit : bool)
   : res explicit_t :=
   if negb is_explicit then Ok acc else
   match dget (nameids rg) name with
@@ -103,23 +111,22 @@ Definition explicit_step (rg : registries) (acc : explicit_t) (name : str) (is_e
                     | _, _ => Ok (node, labelid)
                     end);
           let '(node', labelid') := nl in
-          if str_eqb (n_tag node') s_footnote || n_has_refuri node'
-             || startswith (n_tag node') s_desc_
+          if skipped legacy_refuri node'
           then Ok acc
           else Ok (dset acc name (labelid', implicit_title_of node'))
       end
   end.
 
-Fixpoint build_explicit_from (rg : registries) (nts : list (str * bool)) (acc : explicit_t)
+Fixpoint build_explicit_from (lr : bool) (rg : registries) (nts : list (str * bool)) (acc : explicit_t)
   : res explicit_t :=
   match nts with
   | [] => Ok acc
   | (name, ie) :: nts' =>
-      do acc' <- explicit_step rg acc name ie; build_explicit_from rg nts' acc'
+      do acc' <- explicit_step lr rg acc name ie; build_explicit_from lr rg nts' acc'
   end.
 
-Definition build_explicit (rg : registries) : res explicit_t :=
-  build_explicit_from rg (nametypes rg) [].
+Definition build_explicit (legacy_refuri : bool) (rg : registries) : res explicit_t :=
+  build_explicit_from legacy_refuri rg (nametypes rg) [].
 
 (* ---- the reference loop ---- *)
 
@@ -136,7 +143,8 @@ Record rout := {
   o_fill : option str;     (* text of the inline node appended, if any *)
   o_warn : list warning;   (* warnings logged for this link *)
   o_msg : bool;            (* a system_message child was appended *)
-  o_pending : bool }.      (* replaced by a pending_xref (Sphinx) *)
+  o_pending : bool;        (* replaced by a pending_xref (Sphinx) *)
+  o_pline : option N }.    (* the line the pending_xref carries (pending.line = refnode.line) *)
 
 Definition slugs_t := list (str * (option N * str * str)).   (* slug -> (line, id, title) *)
 
@@ -163,7 +171,7 @@ Section Resolve.
             end
           else None in
         {| o_frag := target; o_refid := Some ref_id; o_fill := fill; o_warn := [];
-           o_msg := false; o_pending := false |}
+           o_msg := false; o_pending := false; o_pline := None |}
     | None =>
         match dget slugs target with
         | Some (_, sect_id, title) =>
@@ -173,11 +181,11 @@ Section Resolve.
                 else if slug_hash then Some (s_hash ++ target) else None
               else None in
             {| o_frag := target; o_refid := Some sect_id; o_fill := fill; o_warn := [];
-               o_msg := false; o_pending := false |}
+               o_msg := false; o_pending := false; o_pline := None |}
         | None =>
             if sphinx then
               {| o_frag := target; o_refid := None; o_fill := None; o_warn := [];
-                 o_msg := false; o_pending := true |}
+                 o_msg := false; o_pending := true; o_pline := r_line r |}
             else
               (* create_warning(..., line=refnode.line, append_to=refnode) returns None and
                  appends nothing when suppressed; otherwise the system_message becomes a
@@ -187,12 +195,14 @@ Section Resolve.
                  o_fill := if has_children then None else Some (s_hash ++ target);
                  o_warn := if suppressed then []
                            else [{| w_line := r_line r; w_target := target |}];
-                 o_msg := negb suppressed; o_pending := false |}
+                 o_msg := negb suppressed; o_pending := false; o_pline := None |}
         end
     end.
 
+  Variable legacy_refuri : bool.
+
   Definition apply (rg : registries) (slugs : slugs_t) (refs : list ref) : res (list rout) :=
-    do explicit <- build_explicit rg;
+    do explicit <- build_explicit legacy_refuri rg;
     Ok (map (resolve_one explicit slugs) refs).
 End Resolve.
 
